@@ -191,6 +191,9 @@ func (g *c07Gen) doc() J {
 	// members required: the base itself still has that member optional
 	schemas["FixBase"] = J{"type": "object", "required": []interface{}{"id", "name", "zed"},
 		"properties": J{"id": J{"type": "integer"}, "name": J{"type": "string"}, "zed": J{"type": "string"}, "age": J{"type": "integer"}, "bio": J{"type": "string"}}}
+	// components that are nothing but a reference to an object with additional members / to a union: the alias has the
+	// methods of what it refers to, whatever the options say about aliases of other types
+	schemas["A1Alias"] = J{"$ref": "#/components/schemas/FixA"}
 	schemas["A0Derived"] = J{"allOf": []interface{}{J{"$ref": "#/components/schemas/FixBase"}, J{"type": "object", "required": []interface{}{"age"}, "properties": J{"extra": J{"type": "string"}}}}}
 	// a union with optional members of its own, nullable and not: an absent one that is not nullable must stay absent
 	schemas["FixH"] = J{"type": "object", "required": []interface{}{"id"},
@@ -589,7 +592,7 @@ func runC07(ctx *Ctx) error {
 		if d%6 == 5 {
 			cfg.Compatibility.OldAliasing = true
 		}
-		if d%4 == 2 {
+		if d%2 == 0 {
 			// the option is documented for arrays; other type names in the list are without effect
 			cfg.OutputOptions.DisableTypeAliasesForType = []string{"array", "object", "string", "integer"}
 		}
